@@ -2,6 +2,7 @@ import AcraModel.Wire.LenEncProofs
 import AcraModel.Wire.PgLemmas
 import AcraModel.Wire.MysqlLemmas
 import AcraModel.Wire.ByteaLemmas
+import AcraModel.Wire.PgExtLemmas
 /-!
 # C12 — relayed messages stay byte-identical; rewritten ones stay well-formed
 
@@ -192,6 +193,62 @@ well-framed Query message carrying the new text and its terminator. -/
 theorem rewrite_wellformed_pg_query (lb old q : Bytes) (h : q.length + 5 < 2^32) :
     marshal (replaceSimpleQuery ⟨81, lb, old⟩ q) = encodeMsg 81 (q ++ [0]) :=
   replaceSimpleQuery_wellformed lb old q h
+
+open AcraModel.Wire.Pg in
+/-- **Relay identity and specification round trip, Parse.** A well-formed Parse body (names without zero
+bytes, any parameter type OIDs) is parsed into its fields and marshalled back to exactly its bytes, and
+the specification decoder recovers name, query and OIDs. -/
+theorem relay_identity_pg_parse (name query : Bytes) (oids : List Nat) (hn : NoZero name)
+    (hq : NoZero query) (hl : oids.length < 2^16) (ho : ∀ o ∈ oids, o < 2^32) :
+    (∃ p, newParsePacket (encodeParse name query oids) = .ok p ∧
+      p.marshal = encodeParse name query oids ∧ p.length = (encodeParse name query oids).length) ∧
+    decodeParse (encodeParse name query oids) = some (name, query, oids) :=
+  ⟨marshal_newParsePacket name query oids hn hq hl ho, decodeParse_encodeParse name query oids hn hq hl ho⟩
+
+open AcraModel.Wire.Pg in
+/-- **Rewritten Parse stays well-formed.** `ReplaceQuery` on a Parse message yields exactly the
+well-framed Parse message with the new query text, the same statement name and the same parameter types. -/
+theorem rewrite_wellformed_pg_parse (name query q lb : Bytes) (oids : List Nat) (hn : NoZero name)
+    (hq : NoZero query) (hl : oids.length < 2^16) (ho : ∀ o ∈ oids, o < 2^32) (hq' : NoZero q)
+    (hsz : (encodeParse name q oids).length + 4 < 2^32) :
+    ∃ p, replaceParseQuery ⟨80, lb, encodeParse name query oids⟩ q = .ok p ∧
+      marshal p = encodeMsg 80 (encodeParse name q oids) :=
+  replaceParseQuery_marshal name query q lb oids hn hq hl ho hq' hsz
+
+open AcraModel.Wire.Pg in
+/-- **Relay identity, Bind.** A well-formed Bind body is parsed into portal, statement, parameter formats,
+parameter values (NULL ≠ empty) and result formats, and marshalled back to exactly its bytes. -/
+theorem relay_identity_pg_bind (portal stmt : Bytes) (pf : List Nat) (pv : List (Option Bytes))
+    (rf : List Nat) (hp : NoZero portal) (hs : NoZero stmt)
+    (hpf : pf.length < 2^16 ∧ ∀ f ∈ pf, f < 2^16) (hrf : rf.length < 2^16 ∧ ∀ f ∈ rf, f < 2^16)
+    (hpv : pv.length < 2^16 ∧ ∀ b, some b ∈ pv → b.length < 2^32 - 1) :
+    ∃ p, newBindPacket (encodeBind portal stmt pf pv rf) = .ok p ∧
+      BindPacket.marshal p = .ok (encodeBind portal stmt pf pv rf) :=
+  marshal_newBindPacket_relay portal stmt pf pv rf hp hs hpf hrf hpv
+
+open AcraModel.Wire.Pg in
+/-- **Rewritten Bind stays well-formed.** For ANY per-parameter transformation `f` (NULL parameters stay
+NULL) `GetParameters → SetParameters → ReplaceBind` yields exactly the well-framed Bind message with the
+transformed parameters: portal, statement and result formats untouched, parameter count and NULL markers
+preserved, every declared parameter length equal to the actual one, the packet length equal to the body
+length + 4, and parameter formats that denote the same format for every parameter
+(`formatByIndex i (canonFormats pf n) = formatByIndex i pf`). -/
+theorem rewrite_wellformed_pg_bind (f : Nat → Bytes → Bytes)
+    (g : Nat → Bool → Option Bytes → Out (Option Bytes))
+    (hg : ∀ i b v, g i b v = .ok (v.map (f i)))
+    (portal stmt lb : Bytes) (pf : List Nat) (pv : List (Option Bytes)) (rf : List Nat)
+    (hp : NoZero portal) (hs : NoZero stmt)
+    (hpf : pf.length < 2^16 ∧ ∀ f ∈ pf, f < 2^16) (hrf : rf.length < 2^16 ∧ ∀ f ∈ rf, f < 2^16)
+    (hpv : pv.length < 2^16 ∧ ∀ b, some b ∈ pv → b.length < 2^32 - 1)
+    (hpv' : ∀ b, some b ∈ mapRow f 0 pv → b.length < 2^32 - 1)
+    (hne : pv ≠ [])
+    (hfmt : ∀ i, i < pv.length → ∃ b, formatByIndex i pf = .ok b)
+    (hsz : (encodeBind portal stmt (canonFormats pf pv.length) (mapRow f 0 pv) rf).length + 4 < 2^32) :
+    (∃ p, rewriteBind g ⟨66, lb, encodeBind portal stmt pf pv rf⟩ = .ok p ∧
+      marshal p = encodeMsg 66 (encodeBind portal stmt (canonFormats pf pv.length) (mapRow f 0 pv) rf)) ∧
+    (∀ i, i < pv.length → formatByIndex i (canonFormats pf pv.length) = formatByIndex i pf) :=
+  ⟨rewriteBind_marshal f g hg portal stmt lb pf pv rf hp hs hpf hrf hpv hpv' hne hfmt hsz,
+   formatByIndex_canonFormats pf pv.length hfmt⟩
 
 /-! ## part 3 — MySQL -/
 
